@@ -171,6 +171,7 @@ let oracle_constraints (q : string) (impl : string) : string =
             match words (int_of_string i) with
             | [ "OK"; o ] when o = h -> None
             | [ "OK" ] when h = "-" -> None
+            | [ "OK"; "" ] when h = "-" -> None
             | _ -> Some ("operation " ^ i ^ " must render " ^ h ^ ": " ^ get (int_of_string i)))
         | [ "body"; i; h ] -> (
             match body (int_of_string i) with
@@ -181,6 +182,15 @@ let oracle_constraints (q : string) (impl : string) : string =
             | Some b when not (contains_sub b (unhex h)) -> None
             | Some _ -> Some ("response " ^ i ^ " body must not contain " ^ unhex h)
             | None -> Some ("operation " ^ i ^ " is not a response: " ^ get (int_of_string i)))
+        | [ "bodymsg"; i ] -> (
+            match body (int_of_string i), err_fields (int_of_string i) with
+            | Some b, Some (l, _, m) when contains_sub b m && contains_sub b l -> None
+            | _ -> Some ("response " ^ i ^ " body must contain the error message and line"))
+        | [ "nobodymsg"; i ] -> (
+            match body (int_of_string i), err_fields (int_of_string i) with
+            | Some b, Some (_, p, m) when (m = "" || not (contains_sub b m)) && (p = "" || not (contains_sub b p)) -> None
+            | Some _, Some _ -> Some ("response " ^ i ^ " body leaks the error message or the file path")
+            | _ -> Some ("response " ^ i ^ " is not a failed response"))
         | [ "bodyeq"; i; j ] ->
             if body (int_of_string i) = body (int_of_string j) && body (int_of_string i) <> None then None
             else Some ("responses " ^ i ^ " and " ^ j ^ " must have the same body")
